@@ -37,3 +37,17 @@ Theorem C05_codec : forall pad P pid over b rd,
   decode_page rd P pid = Ok (mkPhdr pid (body_type b) (body_count b) over, b).
 Proof. exact codec_page. Qed.
 Print Assumptions C05_codec.
+
+(* ---- what "inv_check = Ok" (the executable file checker run on every committed file) MEANS, for every file:
+   the pages reachable from the root, the free-list page run and the recorded free ids are pairwise disjoint and
+   together are exactly pages 2 .. num_pages-1 -- so the per-file verdict the checks print is this statement. *)
+From Coq Require Import Permutation.
+From Jamm Require Import Meta Tree CheckM CheckFacts.
+Theorem C05_inv_check_means_partition : forall rd P, inv_check rd P = Ok tt ->
+  exists o reach, open_db rd P = Ok o /\ (4 <= m_np (o_meta o))%N /\
+    bucket_pages (N.to_nat (m_np (o_meta o))) rd P (m_np (o_meta o)) (m_root (o_meta o)) = Ok reach /\
+    covers rd P [m_root (o_meta o)] reach /\
+    Permutation (reach ++ o_flrun o ++ o_free o) (seqN 2 (N.to_nat (m_np (o_meta o) - 2))) /\
+    NoDup (reach ++ o_flrun o ++ o_free o).
+Proof. exact inv_check_partition. Qed.
+Print Assumptions C05_inv_check_means_partition.
